@@ -7,6 +7,7 @@ Oracles: P1 every caller input equals its snapshot after the call; P2 mutating o
 result; P3 history independence -- every operation's outcome equals the outcome of the same operation executed
 alone in a fresh twin world (same declarations under other names, no history).
 """
+import collections
 import copy
 import os
 import sys
@@ -50,7 +51,8 @@ def source(sfx, p, with_inner=True, variant=0):
     """variant 1 = the 'other module': same class names, different fields."""
     S = "__" + sfx
     L = ["from utype import Schema, DataClass, Field, Options, Lax", "import utype",
-         "from typing import List, Dict, Tuple, Set, Optional, Any, Generator, Annotated, Union, Literal",
+         "from typing import List, Dict, Tuple, Set, Optional, Any, Generator, Annotated, Union, Literal, Deque",
+         "from collections import deque",
          "from sim.faults import Leaf, hook_point", "",
          "import enum", "class EnumOfLists(enum.Enum):", "    A = [1, 1]", "    B = [2, 2]", "",
          "def fac_list():", "    hook_point('fac_list')", "    return [7]", "",
@@ -73,10 +75,12 @@ def source(sfx, p, with_inner=True, variant=0):
           "    cst: list = Field(const=[1, 2], required=False)",
           "    enl: list = Field(enum=EnumOfLists, required=False)",
           "    lge: list = Field(ge=Lax([0, 0]), required=False)",
+          "    dq: Deque[int] = deque([1])", "    dqs: Dict[str, deque] = {'q': deque([1])}",
           f"    inner: Optional['Inner{S}'] = None", f"    inners: List['Inner{S}'] = Field(default_factory=list)",
           "    leaf: Optional[Leaf] = None", "    def __validate__(self):", "        hook_point('validate')", ""]
     L += [f"class D{S}(DataClass):", f"    __options__ = {opt}", "    n: int", "    lst: List[int] = [1]",
           "    dct: Dict[str, List[int]] = {'k': [1]}", "    raw: list = []", "    fl: List[int] = Field(default_factory=fac_list)",
+          "    dq: Deque[int] = deque([1])",
           "    exd: int = Field(default=0, on_error='exclude', dependencies=['dep'])", "    dep: int = Field(required=False)",
           "    leaf: Optional[Leaf] = None", ""]
     L += [f"class FD{S}(Schema):", "    __options__ = Options(force_default=[5])", "    a: list", "    b: list", ""]
@@ -141,6 +145,7 @@ INIT_TEMPLATES = [
     {"n": 1, "lge": [-1]},                                  # below a lax bound: the bound is the result
     {"n": 2, "lge": [-5, 3], "lst": [1]},
     {"n": 1, "lge": [1, 1]},
+    {"n": 1, "dq": [1, "2"]},                               # a deque is a mutable container like a list
 ]
 D_TEMPLATES = [{"n": 1, "lst": [], "dct": {"g": []}}, {"n": 1}, {"n": "2", "lst": ["3"]}, {"n": 1, "dct": {"q": [1]}}, {"n": "zz"}, {"n": 1, "raw": [[1]]},
                {"n": 1, "leaf": {"$r": 0}}, {}, {"n": 1, "exd": "zz"}, {"n": 1, "exd": 5}, {"n": 1, "exd": 6, "dep": 2}]
@@ -293,6 +298,8 @@ def _mutables(x, out, depth=0):
         for v in list(x):
             _mutables(v, out, depth + 1)
     elif isinstance(x, set):
+        out.append(x)
+    elif isinstance(x, collections.deque):
         out.append(x)
     elif isinstance(x, tuple):
         for v in x:
@@ -468,6 +475,11 @@ def execute(plan):
                         dict.__setitem__(slot, "mut", [99])
                 elif isinstance(slot, set):
                     slot.add(99)
+                elif isinstance(slot, collections.deque):
+                    if how == "clear":
+                        slot.clear()
+                    else:
+                        slot.append(99)
             res.stats["probe:result_mutated"] += 1
             dirty = True
             after = [kernel.jdump(kernel.canon(v)) for _i, v in others]
